@@ -166,6 +166,7 @@ def b_store_sharded_inner(n, c, ic, k, a, use_region):
     c01._start()
     sx.assume(c <= n)
     k_ = sx.conc(k)
+    ic = sx.conc(ic)  # inner chunk and shard sizes forked by value: keeps the arithmetic linear
     sh = ic * k_
     if sx.conc(use_region) == 0:
         sx.assume(a == 0)
